@@ -2,6 +2,8 @@ import LlgoVerif.Spec.SysV
 /-!
 # C09 — lemmas: natural layout, the split loop's running-offset invariant, eightbyte classes
 -/
+set_option linter.unusedSimpArgs false
+
 namespace LlgoVerif.CAbi
 open LlgoVerif.SysV
 
@@ -1107,5 +1109,91 @@ theorem drop_append_len {α : Type} (a b : List α) (n : Nat) (h : a.length = n)
 
 theorem take_append_len {α : Type} (a b : List α) (n : Nat) (h : a.length = n) : (a ++ b).take n = a := by
   subst h; simp
+
+
+/-! ## the repaired classifier agrees with the current one on every naturally laid out shape -/
+
+theorem takeWhile_append_stop {α : Type} (p : α → Bool) (a b : List α) (ha : ∀ x ∈ a, p x = true)
+    (hb : ∀ x r, b = x :: r → p x = false) : (a ++ b).takeWhile p = a := by
+  induction a with
+  | nil =>
+    cases b with
+    | nil => rfl
+    | cons x r => simp [List.takeWhile, hb x r rfl]
+  | cons x r ih =>
+    simp only [List.cons_append, List.takeWhile, ha x (by simp)]
+    rw [ih (fun y hy => ha y (by simp [hy]))]
+
+theorem subTypeFixed_left (al size : Nat) (subs : List Scalar) : subTypeFixed size subs true = subType al subs true := by
+  unfold subTypeFixed subType
+  split
+  · rfl
+  · split
+    · rfl
+    · simp
+
+theorem splitClassifyFixed_eq (types : List Scalar) (size al : Nat)
+    (hal : al = maxAlign types) (hsz : size = alignUp (natEnd types 0) al) (h8 : 8 < size) (h16 : size ≤ 16) :
+    splitClassifyFixed ⟨size, al, types, natLayout types 0⟩ = splitClassify al types := by
+  have halc : al = 1 ∨ al = 2 ∨ al = 4 ∨ al = 8 := hal ▸ maxAlign_cases types
+  have hpos : 0 < al := by omega
+  have hend : 8 < natEnd types 0 := by
+    by_cases h : natEnd types 0 ≤ 8
+    · have := alignUp_le_of_le8 _ al h halc; omega
+    · omega
+  obtain ⟨k, hk, hlen, hle, hlay, he, hne⟩ := splitLoop_spec types 0 0 (by omega) hend
+  have hidx : splitLoop types 0 0 = k := by omega
+  have hR8 : natEnd (types.drop k) 8 = natEnd (types.drop k) 0 + 8 := by
+    have := natEnd_shift8 (types.drop k) 0; simpa using this
+  have hsize : size = alignUp (natEnd (types.drop k) 0) al + 8 := by
+    rw [hsz, he, hR8, alignUp_add8' _ _ halc]
+  -- the real-offset split index is the loop's index
+  have hreal : splitIndexReal (natLayout types 0) = k := by
+    unfold splitIndexReal
+    rw [hlay, takeWhile_append_stop]
+    · have := congrArg List.length (natLayout_types (types.take k) 0)
+      simp only [List.length_map, List.length_take] at this
+      omega
+    · intro e he'
+      have := natLayout_bounds _ 0 e he'
+      have := size_pos e.2
+      simp only [decide_eq_true_eq]; omega
+    · intro e r her
+      have hmem : e ∈ natLayout (types.drop k) 8 := by rw [her]; simp
+      have := natLayout_bounds _ 8 e hmem
+      simp only [decide_eq_false_iff_not]; omega
+  unfold splitClassifyFixed splitClassify
+  simp only [hreal, hidx, subTypeFixed_left al]
+  congr 1
+  -- the right half
+  unfold subTypeFixed subType
+  split
+  · rfl
+  · split
+    · rfl
+    · simp only [Bool.false_eq_true, if_false]
+      rw [subFold_eq_natEnd]
+      congr 1; omega
+
+/-- **the repair of fixes/C09-1.diff changes nothing on naturally laid out shapes** (hence inherits their soundness) -/
+theorem classifyFixedV_eq_natural (v : View) (hn : v.natural) (isRet : Bool) : classifyFixedV v isRet = classifyV v isRet := by
+  obtain ⟨size, al, types, elems⟩ := v
+  obtain ⟨h1, h2, h3⟩ := hn
+  simp only at h1 h2 h3
+  subst h1
+  unfold classifyFixedV classifyV
+  split
+  · rfl
+  · unfold getTypeInfoFixed getTypeInfo
+    simp only
+    split
+    · split
+      · rfl
+      · split
+        · rfl
+        · rename_i h16 h8
+          have e := splitClassifyFixed_eq types size al h3 h2 (by omega) (by omega)
+          split <;> (try split) <;> first | rfl | exact e
+    · rfl
 
 end LlgoVerif.CAbi
